@@ -32,6 +32,9 @@ type RouteEntry struct {
 	Path   string
 	Method string // GET, POST etc.
 	Meta   RouteEntryMeta
+
+	// ordinal is the entry's position in the list given to FindConflicts; it tells apart entries with the same path text
+	ordinal int
 }
 
 type Conflict struct {
@@ -48,6 +51,7 @@ func FindConflicts(entries []RouteEntry) []Conflict {
 	seen := map[string]bool{}
 
 	for i := range entries {
+		entries[i].ordinal = i
 		entry := entries[i]
 		normPath := normalizePath(entry.Path)
 		newSegments := splitSegments(normPath)
@@ -272,7 +276,8 @@ func addConflict(out *[]Conflict, seen map[string]bool, a RouteEntry, b RouteEnt
 		aPath, bPath = bPath, aPath
 		a, b = b, a
 	}
-	key := aPath + "||" + bPath + "||" + reason
+	// De-duplicate per pair of entries rather than per pair of path texts - several entries may share the same text
+	key := fmt.Sprintf("%d||%d||%s", a.ordinal, b.ordinal, reason)
 	if seen[key] {
 		return
 	}
